@@ -32,6 +32,8 @@ CONFIGS = {
         (4, "d", 90, "641.928232294317", "999999999999.500000"),
         (5, "e", 30, "29.946923000000", "146750669817.214345"),
         (7, "D", 120, "1.000000000000", "123456.750000"),
+        (12, "e", 90, "641.928232294317", "146754136477.999999"),
+        (3, "E", 30, "29.946923000000", "999999999999.999950"),
     ],
 }
 CONFIGS["thorough"] = CONFIGS["quick"] + [
@@ -196,7 +198,12 @@ def check_predictor(res, case, p, entries, sub0, tag):
         if oname == "interleaved":
             res.hits["unsorted array across entries"] += 1
     # ---- outside every span -> ValueError
-    outs = [ivs[0][0] - F(1, 86400), ivs[-1][1] + F(1, 86400), ivs[0][0] - 3, ivs[-1][1] + 1000]
+    ns = F(1, 86400 * 10 ** 9)
+    outs = [ivs[0][0] - F(1, 86400), ivs[-1][1] + F(1, 86400), ivs[0][0] - 3, ivs[-1][1] + 1000,
+            ivs[0][0] - 100 * ns, ivs[-1][1] + 100 * ns, ivs[0][0] - 10 * ns, ivs[-1][1] + 10 * ns]
+    for (a, b), (c, d) in zip(ivs, ivs[1:]):
+        if c - b > 1000 * 100 * ns * 10:
+            outs += [b + 100 * ns, c - 100 * ns]
     for (a, b), (c, d) in zip(ivs, ivs[1:]):
         outs.append((b + c) / 2)
     for m in outs:
